@@ -17,8 +17,10 @@ CONSTANTS
   FinalReset = TRUE
   CompRebases = FALSE
   MaxUser = 4
+  CompSkips = FALSE
 INVARIANT TypeOK
 INVARIANT RowsTrue
+INVARIANT RowsCompensated
 INVARIANT NominalReproduced
 INVARIANT Reproducible
 INVARIANT EndStateNominal
